@@ -205,6 +205,7 @@ class FunctionContract:
                 cond = contract.raises.get(e.exc_type)
                 if cond is None:
                     path.check(pre + f"no-exception[{e.exc_type}]", False)
+                    path.results[-1].detail = f"raised {e}"
                 else:
                     path.check(pre + f"raise-allowed[{e.exc_type}]", cond(**args))
                 path.cover(pre + "exit")
